@@ -229,10 +229,28 @@ fn do_expand(case: &Value) -> Value {
     let derive = case["derive"].as_str().unwrap_or("").to_string();
     let item = case["item"].as_str().unwrap_or("").to_string();
     let want_tokens = case.get("tokens").and_then(|v| v.as_bool()).unwrap_or(true);
-    let ast: syn::DeriveInput = match syn::parse_str(&item) {
+    let mut ast: syn::DeriveInput = match syn::parse_str(&item) {
         Ok(a) => a,
         Err(e) => return json!({"outcome": "parse_error", "msg": e.to_string()}),
     };
+    // "group_types": every field type arrives as an invisible group (`Type::Group`), the form a `$t:ty` fragment of a
+    // macro_rules! macro has when the item is generated by a macro
+    if case.get("group_types").and_then(|v| v.as_bool()).unwrap_or(false) {
+        fn wrap(fields: &mut syn::Fields) {
+            for f in fields.iter_mut() {
+                let old = std::mem::replace(&mut f.ty, syn::Type::Verbatim(Default::default()));
+                f.ty = syn::Type::Group(syn::TypeGroup { group_token: Default::default(), elem: Box::new(old) });
+            }
+        }
+        match &mut ast.data {
+            syn::Data::Struct(d) => wrap(&mut d.fields),
+            syn::Data::Enum(d) => d.variants.iter_mut().for_each(|v| wrap(&mut v.fields)),
+            syn::Data::Union(d) => d.fields.named.iter_mut().for_each(|f| {
+                let old = std::mem::replace(&mut f.ty, syn::Type::Verbatim(Default::default()));
+                f.ty = syn::Type::Group(syn::TypeGroup { group_token: Default::default(), elem: Box::new(old) });
+            }),
+        }
+    }
     guarded(panic::AssertUnwindSafe(move || {
         match dispatch(&derive, &ast) {
             None => json!({"outcome": "no_such_derive"}),
